@@ -262,9 +262,15 @@ fn digit(input: &[u8]) -> LexResult<'_, u64> {
 fn digits(input: &[u8]) -> LexResult<'_, u64> {
     let (mut input, mut value) = digit(input)?;
     while let Ok((next_input, d)) = digit(input) {
+        // Reject values that do not fit in 64 bits
+        value = match value.checked_mul(10) {
+            Some(shifted) => match shifted.checked_add(d) {
+                Some(value) => value,
+                None => return wrong_chars(input),
+            },
+            None => return wrong_chars(input),
+        };
         input = next_input;
-        value *= 10;
-        value += d;
     }
     Ok((input, value))
 }
@@ -321,9 +327,15 @@ fn digit_hex(input: &[u8]) -> LexResult<'_, u64> {
 fn digits_hex(input: &[u8]) -> LexResult<'_, u64> {
     let (mut input, mut value) = digit_hex(input)?;
     while let Ok((next_input, d)) = digit_hex(input) {
+        // Reject values that do not fit in 64 bits
+        value = match value.checked_mul(16) {
+            Some(shifted) => match shifted.checked_add(d) {
+                Some(value) => value,
+                None => return wrong_chars(input),
+            },
+            None => return wrong_chars(input),
+        };
         input = next_input;
-        value *= 16;
-        value += d;
     }
     Ok((input, value))
 }
@@ -366,9 +378,15 @@ fn digit_octal(input: &[u8]) -> LexResult<'_, u64> {
 fn digits_octal(input: &[u8]) -> LexResult<'_, u64> {
     let (mut input, mut value) = digit_octal(input)?;
     while let Ok((next_input, d)) = digit_octal(input) {
+        // Reject values that do not fit in 64 bits
+        value = match value.checked_mul(8) {
+            Some(shifted) => match shifted.checked_add(d) {
+                Some(value) => value,
+                None => return wrong_chars(input),
+            },
+            None => return wrong_chars(input),
+        };
         input = next_input;
-        value *= 8;
-        value += d;
     }
     Ok((input, value))
 }
